@@ -3,9 +3,10 @@ import NGF.Spec.WellFormedConf
 import NGF.Model.Mangle
 import NGF.Model.Render
 import NGF.Model.RenderTie
+import NGF.Model.RenderTlsTie
 import NGF.Model.Proto
 /-
-Driver entry for C03.   ngfdriver_C03 judge | model | render
+Driver entry for C03.   ngfdriver_C03 judge | model | render | rendertls
 Input: the JSON lines of harness/cmd/c03 (see harness/c03/run.go `LineJ`, harness/c03/fragment.go `FragJ`).
   judge : static lines are remembered (per plus flag) -> `{"static":true}`;
           case lines -> {"issues":[{"c":clause,"d":detail}…],"wf":[…],"lexdiff":[…],"tokens":n,"dirs":n}
@@ -14,6 +15,7 @@ Input: the JSON lines of harness/cmd/c03 (see harness/c03/run.go `LineJ`, harnes
   model : case lines -> {"diffs":[…],"n":k}  the Mangle model against the real names observed
   render: fragment lines {"id","flat","http","matches"} -> translation validation of Model/Render
           (RenderTie.tie): {"inFragment","why","namesSafe","equal","diff","matchesEqual",…,"wfModel":[…],"wfReal":[…]}
+  rendertls: lines {"id","flat","http","matches","secrets","sfiles"} of `-fragment-tls` -> RenderTlsTie.tie (SSL servers)
 -/
 namespace NGF.C03Driver
 open Lean NGF.WF NGF.Nginx
@@ -242,19 +244,43 @@ def renderCase (j : Json) : Except String Json := do
     ("locations", t.locations), ("splits", t.splits), ("keys", t.keys), ("ports", t.ports),
     ("dropped", Json.arr (t.dropped.map Json.str).toArray), ("wfModel", issuesJ t.wfModel), ("wfReal", issuesJ t.wfReal)])
 
+def parseSecretJ (j : Json) : NGF.Tls.SecretObj :=
+  { ns := (getStr j "ns").toList, name := (getStr j "name").toList, isTLS := getStr j "type" == "kubernetes.io/tls",
+    pairOK := getBool j "pairOK", cert := (getStr j "cert").toList, key := (getStr j "key").toList }
+
+/-- `rendertls` mode: lines of `harness/cmd/c03 -fragment-tls` -/
+def renderTlsCase (j : Json) : Except String Json := do
+  let s ← Flat.dScenario (← j.getObjVal? "flat")
+  let http ← match parse (getStr j "http").toList with
+    | .ok d => pure d
+    | .error e => throw s!"http.conf does not parse: {reprStr e}"
+  let ms ← Flat.dMatches (getStr j "matches")
+  let secrets := (getArr j "secrets").toList.map parseSecretJ
+  let sfiles := (getArr j "sfiles").toList.map fun x => x.getStr?.toOption.getD ""
+  let t := NGF.RenderTlsTie.tie http ms s secrets sfiles
+  pure (Json.mkObj [("inFragment", t.inFragment), ("why", t.why), ("namesSafe", t.namesSafe), ("portsOK", t.portsOK),
+    ("noDupSsl", t.noDupSsl), ("equal", t.equal), ("diff", t.diff), ("matchesEqual", t.matchesEqual), ("matchesDiff", t.matchesDiff),
+    ("dirs", t.dirs), ("sslServers", t.sslServers), ("sslDefaults", t.sslDefaults), ("certRefs", t.certRefs),
+    ("certMissing", Json.arr (t.certMissing.map Json.str).toArray), ("certModelOK", t.certModelOK), ("forgetOK", t.forgetOK),
+    ("wfModel", issuesJ t.wfModel), ("wfReal", issuesJ t.wfReal)])
+
 def driver (args : List String) : IO UInt32 := do
   let stdin ← IO.getStdin
   let stdout ← IO.getStdout
   let stat ← IO.mkRef ([] : List (Bool × List (String × String)))
   match args with
   | [mode] =>
-    if mode != "judge" && mode != "model" && mode != "render" then
+    if mode != "judge" && mode != "model" && mode != "render" && mode != "rendertls" then
       IO.eprintln "usage: C03 judge|model|render"; return 2
     NGF.Proto.forEachLine stdin fun l => do
       match Json.parse l with
       | .error _ => stdout.putStrLn "bad-op"
       | .ok j =>
-        if mode == "render" then
+        if mode == "rendertls" then
+          match renderTlsCase j with
+          | .ok v => stdout.putStrLn v.compress
+          | .error e => stdout.putStrLn (Json.mkObj [("error", "bad-op"), ("why", e)]).compress
+        else if mode == "render" then
           match renderCase j with
           | .ok v => stdout.putStrLn v.compress
           | .error e => stdout.putStrLn (Json.mkObj [("error", "bad-op"), ("why", e)]).compress
